@@ -1254,9 +1254,12 @@ impl Gen {
 
     fn legacy_key(&mut self) -> String {
         let g = self.rng.uuid();
-        match self.rng.below(4) {
-            0 => g.chars().filter(|c| *c != '-').collect(),
+        match self.rng.below(8) {
+            0 | 4 => g.chars().filter(|c| *c != '-').collect(),
             1 => g.to_uppercase(),
+            // the other forms the id grammar of the queries and of cancel / expire / reject admits
+            5 => format!("{{{}}}", g),
+            6 => format!("urn:uuid:{}", g),
             _ => g,
         }
     }
